@@ -49,27 +49,38 @@ Definition PROTEINS : str := [80;114;111;116;101;105;110;115].
 Definition DEFAULTDIRECTION : str :=
   [68;101;102;97;117;108;116;68;105;114;101;99;116;105;111;110].
 
-(* parse_pin_header_columns: (n_col, idx_protein_col) *)
-Definition parse_header (header : str) : result (nat * nat) :=
-  let cols := split TAB (strip header) in
+(* sep_protein.join(fields): the separator is a string (several characters, or none) *)
+Fixpoint joins (sep : str) (fs : list str) : str :=
+  match fs with
+  | [] => []
+  | [f] => f
+  | f :: r => f ++ sep ++ joins sep r
+  end.
+
+(* The functions below take the separators as the Python functions do:
+   [sepc] = sep_column (one character), [sepp] = sep_protein (any string). *)
+
+(* parse_pin_header_columns(header, sep_column): (n_col, idx_protein_col) *)
+Definition parse_header_sep (sepc : Z) (header : str) : result (nat * nat) :=
+  let cols := split sepc (strip header) in
   match index_str PROTEINS cols with
   | None => Err EAssertion
   | Some i => Ok (length cols, i)
   end.
 
-(* convert_line_pin_to_tsv *)
-Definition convert_line (line : str) (idx ncol : nat) : str :=
-  let el := split TAB line in
+(* convert_line_pin_to_tsv(line, idx_protein_col, n_col, sep_column, sep_protein) *)
+Definition convert_line_sep (sepc : Z) (sepp : str) (line : str) (idx ncol : nat) : str :=
+  let el := split sepc line in
   let n := length el in
   let n_prot := (Z.of_nat n - Z.of_nat ncol)%Z in
   let e := norm_bound n (Z.of_nat idx + n_prot + 1)%Z in
-  let proteins := join COLON (pyslice el idx e) in
-  join TAB (firstn idx el ++ [proteins] ++ skipn e el).
+  let proteins := joins sepp (pyslice el idx e) in
+  join sepc (firstn idx el ++ [proteins] ++ skipn e el).
 
-Definition nfields (line : str) : nat := length (split TAB line).
+Definition nfields_sep (sepc : Z) (line : str) : nat := length (split sepc line).
 
-(* is_valid_tsv *)
-Definition is_valid (txt : str) : result bool :=
+(* is_valid_tsv(f_in, sep_column) *)
+Definition is_valid_sep (sepc : Z) (txt : str) : result bool :=
   match lines_of txt with
   | [] => Err EStopIteration
   | h :: rest =>
@@ -77,18 +88,20 @@ Definition is_valid (txt : str) : result bool :=
     | [] => Err EStopIteration
     | l2 :: more =>
       if prefixb DEFAULTDIRECTION l2 then Ok false
-      else if negb (Nat.eqb (nfields l2) (nfields h)) then Ok false
-      else Ok (forallb (fun l => Nat.eqb (nfields l) (nfields h)) more)
+      else if negb (Nat.eqb (nfields_sep sepc l2) (nfields_sep sepc h)) then Ok false
+      else Ok (forallb (fun l => Nat.eqb (nfields_sep sepc l) (nfields_sep sepc h)) more)
     end
   end.
 
-(* pin_to_valid_tsv: everything written to f_out *)
-Definition convert_file (txt : str) : result str :=
+(* pin_to_valid_tsv(f_in, f_out, sep_column, sep_protein): everything written to f_out.
+   Both call sites of convert_line_pin_to_tsv (second line, remaining lines) pass
+   sep_column and sep_protein on. *)
+Definition convert_file_sep (sepc : Z) (sepp : str) (txt : str) : result str :=
   match lines_of txt with
   | [] => Err EStopIteration
   | h :: rest =>
     let header := strip h in
-    match parse_header header with
+    match parse_header_sep sepc header with
     | Err e => Err e
     | Ok (ncol, idx) =>
       match rest with
@@ -97,11 +110,18 @@ Definition convert_file (txt : str) : result str :=
         let second := strip l2 in
         Ok (header ++ [NL]
             ++ (if prefixb DEFAULTDIRECTION second then []
-                else convert_line second idx ncol ++ [NL])
-            ++ flat_map (fun l => convert_line (strip l) idx ncol ++ [NL]) more)
+                else convert_line_sep sepc sepp second idx ncol ++ [NL])
+            ++ flat_map (fun l => convert_line_sep sepc sepp (strip l) idx ncol ++ [NL]) more)
       end
     end
   end.
+
+(* the default arguments sep_column="\t", sep_protein=":" (the CLI verify step, Model/Fs.v) *)
+Definition parse_header (header : str) : result (nat * nat) := parse_header_sep TAB header.
+Definition convert_line (line : str) (idx ncol : nat) : str := convert_line_sep TAB [COLON] line idx ncol.
+Definition nfields (line : str) : nat := nfields_sep TAB line.
+Definition is_valid (txt : str) : result bool := is_valid_sep TAB txt.
+Definition convert_file (txt : str) : result str := convert_file_sep TAB [COLON] txt.
 
 (* ---------- structured PIN documents (used to state the theorems) ---------- *)
 Record pinrow := { pre : list str; prots : list str; post : list str }.
@@ -110,8 +130,9 @@ Record pin := { hdr_pre : list str; hdr_post : list str;   (* header = hdr_pre +
                 rows : list pinrow }.
 
 Definition hdr (p : pin) : list str := hdr_pre p ++ [PROTEINS] ++ hdr_post p.
-Definition row_line (r : pinrow) : str := join TAB (pre r ++ prots r ++ post r).
-Definition row_tsv (r : pinrow) : str := join TAB (pre r ++ [join COLON (prots r)] ++ post r).
+Definition row_line (sepc : Z) (r : pinrow) : str := join sepc (pre r ++ prots r ++ post r).
+Definition row_tsv (sepc : Z) (sepp : str) (r : pinrow) : str :=
+  join sepc (pre r ++ [joins sepp (prots r)] ++ post r).
 
 (* every line NL-terminated, except that the last one is when [final_nl] is false *)
 Fixpoint render_lines (final_nl : bool) (ls : list str) : str :=
@@ -121,15 +142,15 @@ Fixpoint render_lines (final_nl : bool) (ls : list str) : str :=
   | l :: r => l ++ NL :: render_lines final_nl r
   end.
 
-Definition pin_lines (p : pin) : list str :=
-  join TAB (hdr p) :: (match dd p with Some d => [d] | None => [] end) ++ map row_line (rows p).
-Definition tsv_lines (p : pin) : list str :=
-  join TAB (hdr p) :: map row_tsv (rows p).
-Definition render_pin (final_nl : bool) (p : pin) : str := render_lines final_nl (pin_lines p).
-Definition render_tsv (p : pin) : str := render_lines true (tsv_lines p).
+Definition pin_lines (sepc : Z) (p : pin) : list str :=
+  join sepc (hdr p) :: (match dd p with Some d => [d] | None => [] end) ++ map (row_line sepc) (rows p).
+Definition tsv_lines (sepc : Z) (sepp : str) (p : pin) : list str :=
+  join sepc (hdr p) :: map (row_tsv sepc sepp) (rows p).
+Definition render_pin (sepc : Z) (final_nl : bool) (p : pin) : str := render_lines final_nl (pin_lines sepc p).
+Definition render_tsv (sepc : Z) (sepp : str) (p : pin) : str := render_lines true (tsv_lines sepc sepp p).
 
 (* the converted document, as a pin again *)
-Definition tsv_row (r : pinrow) : pinrow :=
-  {| pre := pre r; prots := [join COLON (prots r)]; post := post r |}.
-Definition tsv_pin (p : pin) : pin :=
-  {| hdr_pre := hdr_pre p; hdr_post := hdr_post p; dd := None; rows := map tsv_row (rows p) |}.
+Definition tsv_row (sepp : str) (r : pinrow) : pinrow :=
+  {| pre := pre r; prots := [joins sepp (prots r)]; post := post r |}.
+Definition tsv_pin (sepp : str) (p : pin) : pin :=
+  {| hdr_pre := hdr_pre p; hdr_post := hdr_post p; dd := None; rows := map (tsv_row sepp) (rows p) |}.
